@@ -30,6 +30,9 @@ struct Ctx<'a> {
 }
 impl<'a> Ctx<'a> {
     fn fail(&mut self, prop: &str, what: &str, detail: Value) {
+        if self.fails.len() >= 60 {
+            return; // enough to report; each record carries the whole input
+        }
         self.fails.push(json!({"prop": prop, "what": what, "detail": detail, "input": self.inp.to_json(), "mask": self.mask}));
     }
 }
